@@ -21,6 +21,7 @@ FAMS_Q = {
     "chain_m": ("chain", {"medium": True}),
     "bad": ("bad", {}),
     "xmod": ("xmod", {}),
+    "plural": ("plural", {}),
     "xmod_l": ("xmod", {"small": False}),
 }
 
